@@ -33,7 +33,9 @@ RULE = ("op sequences over a pool of 3-6 keys x (4 IPv4 + 3 IPv6 + 2 host-name a
         "fresh one), remove_by_address, blacklist appends, load_snapshot (valid, truncated, corrupted, UTF-8 host names), "
         "address arguments passed as objects of any of the 5 classes, up to two blacklisted mids, the implementation's own "
         "snapshot fed back, services passed as list/tuple/one-shot generator/dict view/reused caller-owned set, discovery "
-        "strategies (EdgeWalk, RandomWalk) run as consumers of the live objects the lookups return, interleaved with all get_* queries and snapshot; cache caps from {1,2,3,500}, raised mid-history. Random sequences of length 10..200 "
+        "strategies (EdgeWalk, RandomWalk) run as consumers of the live objects the lookups return, re-entrant observers (a "
+        "peer-limit observer removing the newcomer inside on_peer_added, an observer probing the lookups during the callback), "
+        "IPv6 addresses with several text renderings (IPv4-mapped/-compatible, loopback, mid zero run), interleaved with all get_* queries and snapshot; cache caps from {1,2,3,500}, raised mid-history. Random sequences of length 10..200 "
         "are steered by a reference graph so that removals, updates and lookups mostly hit existing peers/addresses; "
         "exhaustive enumeration of all sequences over a 20 op alphabet (3 keys, 3 addresses, 2 services; caps 1/1/1) to "
         "depth 3 (quick) / 4 (thorough) and over a 10 op sub-alphabet to depth 5 (thorough), each followed by a sweep of "
@@ -475,7 +477,10 @@ REQUIRED_CLASSES = {
         "peer:LAN-or-Domain-address-class"],
     "address arguments by class": ["address-argument-class:0", "address-argument-class:1", "address-argument-class:2",
                                    "address-argument-class:3", "address-argument-class:4"],
-    "observers": ["observer:added", "observer:removed"],
+    "observers": ["observer:added", "observer:removed", "observer-mode:limit", "observer-mode:probe",
+                  "observer:re-entrant-removal", "observer:probe-during-callback"],
+    "address text forms": ["snap:ipv6-text-form-address", "load:own-snapshot-fed-back"],
+    "unverified introducer": ["qw:answer-depends-on-unverified-introducer"],
     "consumers in /repo (objects handed out)": ["walk:EdgeWalk", "walk:RandomWalk", "walk:issues:qs", "walk:issues:qw",
                                                  "walk:issues:qi", "walk:issues:qa"],
     "containers handed in": ["svcs:services-passed-as:list", "svcs:services-passed-as:tuple",
@@ -507,6 +512,8 @@ class Real:
         self.W = world()
         self.net = self.W.Network()
         self.shared = {}
+        self.limit, self.probe = None, False        # observer modes
+        self.reentrant, self.incoherent = [], []
 
     def consume(self, kind, svc_tok, size, seed=0):
         """run a discovery strategy (a consumer of the lookups that lives in /repo) for three steps over a stub overlay
@@ -592,13 +599,26 @@ class Real:
         return w is not None and not w.introduced_by and w.services is None and not w.new_style
 
     def observe(self):
-        """attach a PeerObserver; returns the (live) event list"""
+        """attach a PeerObserver; returns the (live) event list.  Modes (protocol line `obs …`):
+        `limit n`  a peer-limit observer: on_peer_added removes the newcomer again (re-entrant remove_peer) while more than
+                   n peers are verified;
+        `probe`    on_peer_added looks the newcomer up (by key, in verified_peers) while the callback runs"""
         from ipv8.peerdiscovery.network import PeerObserver
-        W, log = self.W, []
+        W, log, real = self.W, [], self
 
         class Obs(PeerObserver):
             def on_peer_added(self, peer):
-                log.append(("added", W.peer_key(peer)))
+                k = W.peer_key(peer)
+                log.append(("added", k))
+                if real.probe:
+                    by_key = real.net.get_verified_by_public_key_bin(W.key_bins[k])
+                    in_set = peer in real.net.verified_peers
+                    if by_key is not peer or not in_set:
+                        real.incoherent.append(f"during on_peer_added(p{k}): lookup by key returns "
+                                               f"{'the peer' if by_key is peer else by_key}, in verified_peers: {in_set}")
+                if real.limit is not None and len(real.net.verified_peers) > real.limit:
+                    real.reentrant.append(peer_token(k, W.peer_slots(peer)))
+                    real.net.remove_peer(peer)
 
             def on_peer_removed(self, peer):
                 log.append(("removed", W.peer_key(peer)))
@@ -907,6 +927,8 @@ def classify(spec: Spec, real: Real, t) -> list:
             out.append("snap:peer-without-usable-address")
         if any(not set(spec.V[k]) & set(spec.order) and spec.CT.get(k) for k in spec.V):
             out.append("snap:address-only-from-constructor")
+        if any(spec.preferred(k) in V6_FORMS for k in spec.V):
+            out.append("snap:ipv6-text-form-address")
     return out
 
 
@@ -954,6 +976,15 @@ def execute(ctx: Ctx, lines, tag: str):
     events = real.observe()
     for i, ln in enumerate(lines):
         t = resolve(ln.split(), real.canonical_token)
+        if t[0] == "obs":
+            if t[1] == "limit":
+                real.limit = int(t[2])
+            elif t[1] == "probe":
+                real.probe = True
+            ctx.count(f"class:observer-mode:{t[1]}")
+            sent.append(" ".join(t))
+            answers.append("ok")
+            continue
         if t[0] == "walk":
             # an in-repo CONSUMER of the lookups (a discovery strategy) runs against the Network: whatever it does with
             # the objects it is handed, afterwards every lookup must still answer what the graph implies
@@ -1020,6 +1051,24 @@ def execute(ctx: Ctx, lines, tag: str):
             answers.append(ans)
             mlines.append(" ".join(full[:3] if full[0] == "svcs" else full))     # the container kind is the caller's business
             manswers.append(ans)
+            added_now = set(spec.V) - keys_before
+            # a re-entrant observer removed the newcomer from inside on_peer_added: to the graph (and to the model) that is
+            # the addition followed by remove_peer of the stored object
+            for tok in real.reentrant:
+                rt = ["rmp", tok]
+                spec.mutate(rt, real)
+                mlines.append(" ".join(rt))
+                manswers.append("ok")
+                ctx.count("class:observer:re-entrant-removal")
+            del real.reentrant[:]
+            if real.incoherent:
+                ctx.oracle_fail(f"{_MUT_SITE[t[0]]}:observer-sees-lookups-disagree", real.incoherent[0] + f" (`{' '.join(t)}`)",
+                                {"lines": sent[:], "failing_line": i})
+                ctx.count(f"oracle_fail:{_MUT_SITE[t[0]]}:observer-sees-lookups-disagree")
+                del real.incoherent[:]
+                return sent, answers, False, (mlines, manswers)
+            if real.probe and added_now:
+                ctx.count("class:observer:probe-during-callback")
             last = real.digest()
             if last != spec.digest():
                 d_r, d_s = last, spec.digest()
@@ -1030,7 +1079,8 @@ def execute(ctx: Ctx, lines, tag: str):
                 ctx.count(f"oracle_fail:{_MUT_SITE[t[0]]}:{part}")
                 return sent, answers, False, (mlines, manswers)
             # PeerObserver callbacks: exactly the keys that entered / left the membership, once each
-            want = sorted([("added", k) for k in set(spec.V) - keys_before] + [("removed", k) for k in keys_before - set(spec.V)])
+            want = sorted([("added", k) for k in (set(spec.V) | added_now) - keys_before]
+                          + [("removed", k) for k in (keys_before | added_now) - set(spec.V)])
             if sorted(events) != want:
                 ctx.oracle_fail(f"{_MUT_SITE[t[0]]}:observer-events", f"after `{' '.join(t)}` observers saw {sorted(events)}, "
                                 f"membership changed by {want}", {"lines": sent[:], "failing_line": i})
@@ -1144,6 +1194,10 @@ def random_sequence(rng, length, nkeys):
             return a
         return a + "~%d" % rng.choice([0, 2, 3] if a[0] == "4" else [1, 2] if a[0] == "6" else [2, 4])
 
+    if rng.random() < 0.2:
+        lines.append("obs limit %d" % rng.choice([1, 2, 3]))
+    if rng.random() < 0.3:
+        lines.append("obs probe")
     bl_keys = keys[-2:] if nkeys >= 4 else keys[-1:]     # identities that may get blacklisted (never all of them)
     for bk in bl_keys:
         if rng.random() < 0.2:
@@ -1360,6 +1414,12 @@ def scripted():
         # an introducer that never becomes verified (blacklisted identity / blacklisted address) advertises a service
         [c500, "blm p0", "svcs p0:- [s1]", f"disc p0:0={a} {x} s2 0", "qw s1 0", "qw s2 0", "qw s3 0", "qs s1", "qi p0"],
         [c500, f"bla {a}", "svcs p0:- [s1]", f"disc p0:0={a} {x} s2 0", f"add p1:0={b}", "svcs p1:- [s2]", "qw s1 0", "qw s2 0", "qk p0"],
+        # re-entrant observers: a peer-limit observer removes the newcomer from inside on_peer_added; a probing observer
+        # looks the newcomer up during the callback.  Key lookup, membership and re-adding must stay consistent
+        [c500, "obs probe", "obs limit 1", f"add p0:0={a}", f"add p1:0={b}", "qk p1", f"qa {b} ?", "qs s1", f"rma {a}",
+         f"add p1:0={b}", "qk p1", f"qa {b} ?"],
+        [c500, "obs limit 1", "svcs p1:- [s1]", "qs s1", f"add p0:0={a}", f"disc p1:0={b} {x} s1 0", "qk p1", "qs s1", "qi p1",
+         "rmp p0:*", f"add p1:0={b}", "qk p1", "qs s1"],
         # two blacklisted identities
         [c500, "blm p0", "blm p1", f"add p1:0={a}", f"add p0:0={b}", f"add p2:0={x}", "qk p0", "qk p1", "qk p2",
          f"disc p1:0={a} {V4[3]} s1 0", "svcs p1:- [s2]", "qw s2 0", "qi p1"],
